@@ -67,6 +67,7 @@ type vScenario struct {
 	NoRelayExt  map[string]bool   `json:"norelayext"`  // proxies whose poll omits AcceptedRelayPattern
 	CC          map[string]string `json:"cc"`          // remote address (no port) -> country code in the test GeoIP tables ("??" = not listed)
 	GeoReload   bool              `json:"georeload"`   // herd: the operator's SIGHUP reload of the GeoIP tables while a wave is being served (C20)
+	OddText     bool              `json:"oddtext"`     // offers and answers carry control characters, markup characters and runes outside the BMP
 }
 
 type vReq struct {
@@ -103,6 +104,8 @@ type vRig struct {
 	out      *os.File
 	sidName  map[string]string // wire session id -> request name that introduced it
 	cc       map[string]string // address -> country code (scenario input)
+	oddtext  bool
+	sent     map[string]string // "o:"+client / "a:"+answer -> the exact text sent
 	diverged string
 	sc       int
 }
@@ -243,6 +246,37 @@ func (r *vRig) probe() bool {
 		return false
 	}
 	return true
+}
+
+// Text the broker has to carry unchanged: valid UTF-8 that needs escaping in JSON or looks like markup.
+var vOddTails = []string{"\x01", "\x7f", "\x00\v\a", "\U000e0001", "<script>&amp;</script>", "\u2028\u2029", "\\\"quote\"\\", "\r\n a=x\r\n", "\U0001F600\u00e9"}
+
+func (r *vRig) oddTail(name string) string {
+	if !r.oddtext {
+		return ""
+	}
+	return ":" + vOddTails[(r.sc+len(name)+int(name[len(name)-1]))%len(vOddTails)]
+}
+
+// remember / compare the exact text of an offer or answer
+func (r *vRig) remember(key, text string) {
+	r.mu.Lock()
+	r.sent[key] = text
+	r.mu.Unlock()
+}
+
+func (r *vRig) exact(key, text string) bool {
+	r.mu.Lock()
+	defer r.mu.Unlock()
+	want, ok := r.sent[key]
+	return !ok || want == text
+}
+
+func (r *vRig) judgeExact(ev vEvent) {
+	if t, ok := ev["atext"]; ok {
+		ev["exact"] = r.exact("a:"+vStr(ev["a"]), vStr(t))
+		delete(ev, "atext")
+	}
 }
 
 func vAnswerName(text string) string {
@@ -558,6 +592,7 @@ func (r *vRig) doProxy(q *vReq, sc *vScenario) vEvent {
 		ev["kind"] = "nomatch"
 	default:
 		ev["kind"], ev["client"], ev["nat"], ev["relay"] = "offer", vOfferName(offer), nat, relay
+		ev["exact"] = r.exact("o:"+vOfferName(offer), offer)
 	}
 	return ev
 }
@@ -572,7 +607,7 @@ func vClassifyClientJSON(ev vEvent, body []byte) {
 	case err != nil:
 		ev["kind"] = "undecodable"
 	case resp.Error == "":
-		ev["kind"], ev["a"] = "answer", vAnswerName(resp.Answer)
+		ev["kind"], ev["a"], ev["atext"] = "answer", vAnswerName(resp.Answer), resp.Answer
 	case resp.Error == messages.StrNoProxies:
 		ev["kind"] = "noproxies"
 	case resp.Error == messages.StrTimedOut:
@@ -584,7 +619,8 @@ func vClassifyClientJSON(ev vEvent, body []byte) {
 
 func (r *vRig) doClient(q *vReq) vEvent {
 	ev := vClientEvent(q)
-	offer := fmt.Sprintf(`{"type":"offer","sdp":"OFFER:%s:%d"}`, q.name, r.sc)
+	offer := fmt.Sprintf(`{"type":"offer","sdp":"OFFER:%s:%d%s"}`, q.name, r.sc, r.oddTail(q.name))
+	r.remember("o:"+q.name, offer)
 	w := httptest.NewRecorder()
 	switch q.via {
 	case "legacy":
@@ -596,6 +632,7 @@ func (r *vRig) doClient(q *vReq) vEvent {
 		switch w.Code {
 		case 200:
 			ev["kind"], ev["a"] = "answer", vAnswerName(w.Body.String())
+			ev["exact"] = r.exact("a:"+vStr(ev["a"]), w.Body.String())
 		case http.StatusServiceUnavailable:
 			ev["kind"] = "noproxies"
 		case http.StatusGatewayTimeout:
@@ -627,6 +664,7 @@ func (r *vRig) doClient(q *vReq) vEvent {
 			return ev
 		}
 		vClassifyClientJSON(ev, plain)
+		r.judgeExact(ev)
 		return ev
 	default:
 		poll := &messages.ClientPollRequest{Offer: offer, NAT: vWireNat(q.nat), Fingerprint: vFingerprint(q.fp)}
@@ -641,12 +679,15 @@ func (r *vRig) doClient(q *vReq) vEvent {
 			return ev
 		}
 		vClassifyClientJSON(ev, w.Body.Bytes())
+		r.judgeExact(ev)
 		return ev
 	}
 }
 
 func (r *vRig) doAnswer(q *vReq) vEvent {
-	body, err := messages.EncodeAnswerRequest(fmt.Sprintf("ANSWER:%s:%d", q.name, r.sc), vWireSid(q.target, r.similar))
+	answer := fmt.Sprintf("ANSWER:%s:%d%s", q.name, r.sc, r.oddTail(q.name))
+	r.remember("a:"+q.name, answer)
+	body, err := messages.EncodeAnswerRequest(answer, vWireSid(q.target, r.similar))
 	if err != nil {
 		panic(err)
 	}
@@ -1020,6 +1061,8 @@ func (r *vRig) runScenario(t *testing.T, sc *vScenario) (events []vEvent, hung b
 	r.waiting = map[string]chan struct{}{}
 	r.similar = sc.SimilarSids
 	r.cc = sc.CC
+	r.oddtext = sc.OddText
+	r.sent = map[string]string{}
 	r.sidName = map[string]string{"unknownSid": "unknownSid"}
 	// every session id this scenario will use (an answer may name a proxy that has not polled yet)
 	for _, st := range sc.Steps {
